@@ -82,9 +82,12 @@ Theorem C18_print_state : forall tol p1 p2 s0 m dofix (r1 r2 : result St F),
 Proof. exact (@cpals_print_indep_state St F sweep fit_mttkrp fit_innerprod fchange_lt fit0 arrange fixsigns). Qed.
 
 (* ... and the reported fit / residual too, provided the innerprod formula used when printing agrees with the saved-mttkrp
-   formula used otherwise (A-43) — which is theorem C09_fit_identity in exact arithmetic *)
+   formula used otherwise (A-43) — which is theorem C09_fit_identity in exact arithmetic; for maxiters = 0 (no sweep: the silent
+   run evaluates the innerprod formula on the start, the printing run on the arranged start) arrange / fixsigns must not change
+   what that formula sees, which is C08_invariant_arrange / C08_invariant_fixsigns *)
 Theorem C18_print : forall tol p1 p2 s0 m dofix (r1 r2 : result St F),
   (forall s, fit_innerprod (cpals_finish arrange fixsigns dofix s) = fit_mttkrp s) ->
+  (m = 0%nat -> fit_innerprod (cpals_finish arrange fixsigns dofix s0) = fit_innerprod s0) ->
   RUN tol p1 s0 m dofix = Some r1 -> RUN tol p2 s0 m dofix = Some r2 ->
   r_state r1 = r_state r2 /\ r_iters r1 = r_iters r2 /\ r_normres r1 = r_normres r2 /\ r_fit r1 = r_fit r2 /\ r_trace r1 = r_trace r2.
 Proof. exact (@cpals_print_indep St F sweep fit_mttkrp fit_innerprod fchange_lt fit0 arrange fixsigns). Qed.
